@@ -51,6 +51,13 @@ mut("c20-if-form-ok", "C20", CC, "  if (!dst) {\n    mj_warning(d, mjWARN_CONTAC
     "  if (dst) {\n    *dst = *con;\n    d->ncon++;\n    return 0;\n  }\n  mj_warning(d, mjWARN_CONTACTFULL, d->ncon);\n  return 1;", None)
 mut("c20-no-clear", "C20", CC, "    mj_warning(d, mjWARN_CNSTRFULL, d->narena);                               \\\n    mj_clearEfc(d);                                                           \\\n",
     "    mj_warning(d, mjWARN_CNSTRFULL, d->narena);                               \\\n", "rule=R-NULLABLE construct=arenaAllocEfc")
+MEMC = "src/engine/engine_memory.c"
+ISL = "src/engine/engine_island.c"
+mut("c20-size-test-wraps", "C20", MEMC, "  size_t bytes_available = d->narena - d->pstack;\n  if (mjUNLIKELY(d->parena + padding + bytes > bytes_available)) {",
+    "  size_t bytes_available = d->narena - d->pstack - d->parena;\n  if (mjUNLIKELY(bytes > bytes_available - padding)) {", "rule=R-ARENA-GUARD construct=mj_arenaAllocByte:size-test-no-wrap")
+mut("c20-size-test-ok-equivalent", "C20", MEMC, "  size_t bytes_available = d->narena - d->pstack;\n  if (mjUNLIKELY(d->parena + padding + bytes > bytes_available)) {",
+    "  size_t bytes_used = d->parena + padding + bytes;\n  if (mjUNLIKELY(!(bytes_used <= d->narena - d->pstack))) {", None)
+mut("c20-island-rewind-to-contacts", "C20", ISL, "  d->nidof = 0;\n  d->parena = parena;\n", "  d->nidof = 0;\n  d->parena = d->ncon * sizeof(mjContact);\n", "rule=R-ARENA-STALE construct=")
 # ---- C26
 mut("c26-size", "C26", SU, "case mjSTATE_WARMSTART:     return m->nv;", "case mjSTATE_WARMSTART:     return m->nu;", "rule=R-TABLE-STATE construct=mjSTATE_WARMSTART")
 mut("c26-cursor", "C26", SU, "        mju_copy(state + adr, ptr, size);\n        adr += size;", "        mju_copy(state + adr, ptr, size);\n        adr += 1;",
